@@ -27,21 +27,21 @@ import (
 // shape again (to reproduce the finding / after a fix).
 const (
 	avoidCSVLineBreakUnquoted   = false // csv_linebreak_unquoted: CSV/TSV field with CR/LF and no delimiter/quote is written unquoted
-	avoidCSVSingleEmptyRecord   = true // csv_single_empty_field_record_lost: a one-column CSV record whose field is empty (NULL, or "" quoted or not) is skipped on load like a blank line
-	avoidLTSVSingleField        = true // ltsv_single_field_record_dropped: the LTSV loader drops every line that has one field
-	avoidLTSVColonInValue       = true // ltsv_colon_in_value_dropped: the LTSV loader drops ':' inside values
-	avoidFixedLineBreak         = true // fixed_linebreak_accepted: fixed-length writer accepts CR/LF in a cell
-	avoidFixedUTF16Padding      = true // fixed_utf16_padding: fixed-length padding counts bytes but writes 2-byte blanks in UTF-16
-	avoidJSONLCRLineBreak       = true // jsonl_cr_linebreak_unloadable: JSON Lines written with line break CR cannot be loaded
-	avoidJSONDuplicateMember    = true // json_duplicate_member: column names "a.b" and "a" give {"a":{..},"a":..}
-	avoidPartialOutputOnRefusal = true // partial_output_on_refusal: LTSV/FIXED errors after the first 4 KiB were flushed
+	avoidCSVSingleEmptyRecord   = true  // csv_single_empty_field_record_lost: a one-column CSV record whose field is empty (NULL, or "" quoted or not) is skipped on load like a blank line
+	avoidLTSVSingleField        = true  // ltsv_single_field_record_dropped: the LTSV loader drops every line that has one field
+	avoidLTSVColonInValue       = true  // ltsv_colon_in_value_dropped: the LTSV loader drops ':' inside values
+	avoidFixedLineBreak         = true  // fixed_linebreak_accepted: fixed-length writer accepts CR/LF in a cell
+	avoidFixedUTF16Padding      = true  // fixed_utf16_padding: fixed-length padding counts bytes but writes 2-byte blanks in UTF-16
+	avoidJSONLCRLineBreak       = true  // jsonl_cr_linebreak_unloadable: JSON Lines written with line break CR cannot be loaded
+	avoidJSONDuplicateMember    = true  // json_duplicate_member: column names "a.b" and "a" give {"a":{..},"a":..}
+	avoidPartialOutputOnRefusal = true  // partial_output_on_refusal: LTSV/FIXED errors after the first 4 KiB were flushed
 	avoidJSONLDoubleLineBreak   = false // jsonl_double_trailing_linebreak: every JSONL write path ends with two line breaks (CLI checks)
-	avoidRawTrailingLineBreak   = true // trailing_linebreak_not_encoded: the final line break is written as raw bytes (UTF-16 output gets an odd byte) (CLI checks)
+	avoidRawTrailingLineBreak   = true  // trailing_linebreak_not_encoded: the final line break is written as raw bytes (UTF-16 output gets an odd byte) (CLI checks)
 	avoidCommitSessionLineBreak = false // commit_trailing_linebreak_from_session: COMMIT ends the file with the session's line break (CLI checks)
-	avoidCRTerminatedFile       = true // cr_terminated_file_unloadable: a CSV/TSV/LTSV/FIXED file whose last byte is a CR line break does not load ("invalid use of UnreadRune")
-	avoidJSONNameTrimmed        = true // json_column_name_trimmed: JSON output trims edge blanks of column names
-	avoidJSONTrailingBackslash  = true // json_trailing_backslash_unloadable: a JSON string ending in a backslash ("x\\") does not load
-	avoidFixedSpacesCR          = true // fixed_spaces_cr_linebreak: "SPACES" position detection does not recognise CR line breaks
+	avoidCRTerminatedFile       = true  // cr_terminated_file_unloadable: a CSV/TSV/LTSV/FIXED file whose last byte is a CR line break does not load ("invalid use of UnreadRune")
+	avoidJSONNameTrimmed        = true  // json_column_name_trimmed: JSON output trims edge blanks of column names
+	avoidJSONTrailingBackslash  = true  // json_trailing_backslash_unloadable: a JSON string ending in a backslash ("x\\") does not load
+	avoidFixedSpacesCR          = true  // fixed_spaces_cr_linebreak: "SPACES" position detection does not recognise CR line breaks
 )
 
 var noAvoid = func() map[string]bool {
